@@ -171,5 +171,32 @@ def guard(fn, *a, **kw):
         return "exc", e
 
 
+class Hang(BaseException):
+    """Raised by the wall-clock watchdog inside a guarded call."""
+
+
+def _on_alarm(signum, frame):
+    raise Hang()
+
+
+def guard_timed(seconds, fn, *a, **kw):
+    """Like guard, with a wall-clock watchdog: returns ('hang', None) when the
+    call does not finish in time (inconclusive for that call, never a verdict)."""
+    import signal
+
+    old = signal.signal(signal.SIGALRM, _on_alarm)
+    signal.setitimer(signal.ITIMER_REAL, seconds)
+    try:
+        try:
+            return "ok", fn(*a, **kw)
+        finally:
+            signal.setitimer(signal.ITIMER_REAL, 0)
+            signal.signal(signal.SIGALRM, old)
+    except Hang:
+        return "hang", None
+    except Exception as e:
+        return "exc", e
+
+
 def exc_name(e):
     return type(e).__name__ + ": " + str(e)[:200]
